@@ -109,7 +109,7 @@ class C07(CheckBase):
             reqs.append({'id': i, 'g': rng.randrange(getters), 'kind': kind, 'handles': handles})
         sub = rng.random() < 0.3
         return {'sched': draw_sched_config(rng), 'world': cfg, 'writers': writers, 'ops': ops, 'getters': getters,
-                'reqs': reqs, 'subscribe': sub}
+                'reqs': reqs, 'subscribe': sub, 'stall_after_mdib_lock': rng.choice([0.0, 0.2, 0.5])}
 
     # ------------------------------------------------------------------
     def body(self, ctx):
@@ -127,6 +127,9 @@ class C07(CheckBase):
             consumers.append(c)
         hist = w.hist
         results = []  # (req, v_start, v_end, result or exception)
+        if plan.get('stall_after_mdib_lock'):
+            # slow-thread fault placed where a handler has collected its data and released the MDIB lock
+            s.stall_after(w.mdib.mdib_lock, plan['stall_after_mdib_lock'], (0.002, 0.008))
 
         def writer(wi):
             with worldb.node(worldb.PROVIDER_IP):
